@@ -272,7 +272,9 @@ def _check_exists(ck: Checker, rule: str = "C07.exists") -> None:
         # ... and not via the exception edge out of check
         r = g.reach(list(chk), skip_edge=lambda a, l, b: not (a.id in chk and l == "exc") and a.id in chk)
         exc_targets = [d for cid in chk for lab, d in g.nodes[cid].succ if lab == "exc"]
-        r = g.reach(exc_targets, skip_node=lambda x: x.id == head.id)
+        from ..an import reach_const_flags as _rcf
+
+        r = _rcf(g, exc_targets, skip_node=lambda x: x.id == head.id)
         ck.require(n.id not in r, rule, fn, n,
                    "a failed check never leads to the oid being reported",
                    "the handler of a failed check can still report the oid as existing",
